@@ -103,6 +103,23 @@ def scenario_for(seed, index, tier):
                   'max_steps': 400000},
         'rand_seed': rng.randrange(2**32),
     }
+    if rng.random() < 0.12:
+        # 'kick': like a real server, it closes its socket right after the
+        # disconnect packet instead of waiting for the client's answers, so
+        # the client's own sends may fail (send-error fault) while packets
+        # are still waiting to be read
+        sc['kick'] = True
+        sc['net']['send_error'] = True
+        # the packets arrive in two or three bursts, and a slow outgoing
+        # listener keeps the networking thread in its write phase for a while
+        for _ in range(rng.choice([1, 2])):
+            hist.insert(rng.randint(1, len(hist)),
+                        ['pause', rng.choice([500, 5000, 60000])])
+        sc['slow_out_us'] = rng.choice([0, 2000, 20000, 100000])
+        sc['net']['segment'] = rng.random() < 0.6
+        sc['writes'] = [['q', t] for _m, t in sc['writes']]
+        for l in listeners:
+            l['fw'] = []
     finish(sc)
     return sc
 
@@ -117,13 +134,21 @@ def finish(sc):
                      'compress_noswitch') if s_[0].startswith('compress')
                     else s_[0]] + list(s_[1:]) for s_ in sc['login']]
     play = list(sc['history'])
-    play.append(['expect', ref['expected_play_frames']])
-    play.append(['disconnect', '{"text":"end"}'])
+    if sc.get('kick'):
+        play.append(['disconnect', '{"text":"end"}'])
+        play.append(['close'])
+    else:
+        play.append(['expect', ref['expected_play_frames']])
+        play.append(['disconnect', '{"text":"end"}'])
     sc['server'] = {'conns': [{'login': sc['login'], 'play': play,
                                'no_wait_plugins': ref['unanswered_plugins']}]}
 
 
 def policy(rng, scenario):
+    if scenario.get('kick'):
+        return Policy(p_sched=rng.choice([0, 0.01]),
+                      p_event=rng.choice([0, 0.1, 0.3]), p_seg=0.3,
+                      p_io=rng.choice([0.3, 1.0]), name='c13-kick')
     return Policy(p_sched=rng.choice([0, 0.01, 0.1]),
                   p_event=rng.choice([0, 0.1, 0.3]), p_seg=0.3, name='c13')
 
@@ -191,9 +216,11 @@ def reference(sc):
     outgoing = [(('hs',), 'hs'), (('login-start',), 'login-start')]
     fw_count = {}
     by_id = {l['id']: l for l in L}
+    groups = []
     for key, kind in incoming:
         calls, reacted = dispatch_in(L, kind)
         exp_in += [(lid, key) for lid in calls]
+        groups.append([(lid, key) for lid in calls])
         for lid in calls:
             if kind in by_id[lid].get('fw', ()):
                 n = fw_count.get(lid, 0)
@@ -229,6 +256,7 @@ def reference(sc):
     unanswered = [s[1] for s in sc['login'] if s[0] == 'plugin'
                   and s[1] not in answered]
     return {'incoming': incoming, 'exp_in': exp_in, 'exp_out': exp_out,
+            'exp_in_groups': groups,
             'expected_play_frames': play_frames,
             'unanswered_plugins': unanswered,
             'compression_reacted': compression_reacted}
@@ -338,6 +366,13 @@ def execute(scenario, tape):
             lambda p: st.__setitem__('in_play', True),
             cb.login.LoginSuccessPacket)
 
+        if scenario.get('slow_out_us'):
+            def slow(p):
+                if st['in_play']:
+                    w.sleep(scenario['slow_out_us'])
+            conn.register_packet_listener(slow, Packet, early=True,
+                                          outgoing=True)
+
         def user():
             st['connect'] = w.api('connect', conn.connect)
             w.wait_until(lambda: st['in_play'] or st['errs'], 30000000)
@@ -385,19 +420,32 @@ def check(scenario, w, st, res, ids):
         V.append(('C13/%s' % sim.end_state, repr(sim.end_detail)))
         return
     ob()
-    if st['errs']:
+    kick = scenario.get('kick')
+    if st['errs'] and not (kick and sim.stats.get('fault.send-error') and
+                           isinstance(st['errs'][0], OSError)):
         V.append(('C13/error-reported:%s' % type(st['errs'][0]).__name__,
                   str(st['errs'][0])[:160]))
         return
     app = w.server.apps[0]
     ob()
-    if app.errors:
+    if app.errors and not kick:
         V.append(('C13/server-saw-protocol-error', app.errors[:2]))
         return
     # ---- incoming: global call log equals the reference dispatcher's
     got_in = [(c['lid'], tuple(c['key'])) for c in st['calls']
               if not c['out']]
     want_in = [(lid, tuple(k)) for lid, k in ref['exp_in']]
+    if kick:
+        # every packet the client has taken off the stream must have been
+        # dispatched, whatever happened to the client's own sends meanwhile
+        consumed = app.conn.s2c_consumed
+        n_cons = sum(1 for _a, end, _k in app.out_frames if end <= consumed)
+        want_in = [(lid, tuple(k)) for g in ref['exp_in_groups'][:n_cons]
+                   for lid, k in g]
+        res.summary['kick'] = {'frames_consumed': n_cons,
+                               'frames_sent': len(app.out_frames)}
+        if sim.stats.get('fault.send-error'):
+            res.probes['send-failed-with-packets-unread'] = 1
     ob(len(want_in) + 1)
     if got_in != want_in:
         i = 0
@@ -415,6 +463,9 @@ def check(scenario, w, st, res, ids):
         V.append(('C13/incoming-%s' % kind,
                   {'at': i, 'got': g, 'want': x, 'n_got': len(got_in),
                    'n_want': len(want_in)}))
+        return
+    if kick:
+        # the outgoing side is at the mercy of the closed socket
         return
     # built-in reaction present/absent (wire effect)
     frames = {}
@@ -543,6 +594,10 @@ def check(scenario, w, st, res, ids):
 
 
 def shrink_scenario(sc):
+    if sc['net'].get('segment'):
+        c = copy.deepcopy(sc)
+        c['net']['segment'] = False
+        yield c
     for j in range(len(sc['listeners'])):
         c = copy.deepcopy(sc)
         del c['listeners'][j]
